@@ -32,7 +32,7 @@ PROPERTY = "C15"
 LEVEL = "exploration"
 ENGINE = "sansio"
 TECHNIQUE = "constructed certificate matrix with ground truth by construction; real OpenSSL peers in memory"
-BUDGET = {"quick": (640, 20), "thorough": (40_000, 200)}
+BUDGET = {"quick": (480, 18), "thorough": (40_000, 200)}
 WORKERS = {"quick": 4, "thorough": 16}
 REQUIRED = ["accept_when_expected", "reject_when_expected", "failure_signalled", "no_appdata_on_reject", "appdata_delivered", "insecure_waives"]
 RULE = (
@@ -41,7 +41,8 @@ RULE = (
     "CN with non-DNS SAN / IP SAN for a DNS identity / expired / not yet valid / self-signed / other root / missing, supplied, "
     "supplied+root, expired intermediate, and for IP identities IP SAN exact / among / other / IP as dNSName / CN only / wildcard; "
     "identity forms: DNS name, upper-case, A-label, U-label, IPv4, IPv6; identity sources: server.sni, client.sni (address names "
-    "something else), server address; trust: CA file, hashed CA directory, default store, CA file of another root. The whole "
+    "something else), server address; trust: CA file, hashed CA directory, default store, CA file of another root (only CA file and default "
+    "store when ssl_insecure is on). The whole "
     "matrix is enumerated once with canonical names (both tiers), further cases repeat random cells with random labels, "
     "validity windows, TLS 1.2/1.3 peers, lazy/eager connection flow and random segmentation of the server flight. "
     "distinct = cell (+flow, TLS version for the random part); every cell is non-trivial (a full handshake attempt is made)"
@@ -106,6 +107,8 @@ def matrix():
             for src in SOURCES:
                 for trust in TRUSTS:
                     for insecure in (False, True):
+                        if insecure and trust in ("cadir", "cafile-b"):
+                            continue  # with verification waived the trust configuration axis is thinned to {CA file, default store}
                         cells.append((cls, idf, src, trust, insecure))
     return cells
 
